@@ -594,6 +594,6 @@ def replay(ctx, path):
 
 MANIFEST = dict(
     category="other",
-    text="Partial proof + replayable experiments. PROVED in Lean 4 (no sorry, standard axioms): codec_roundtrip — for EVERY restart schema (nested data-dependent loops, conditionals, factory tags) and every value, the reader (loop counts evaluated from what it has read, bool `> 0`, string through char*, map insertion) returns exactly what the writer wrote and consumes exactly its bytes, hence write->read->write is byte-identical; schemas_match — for every restartable class, factory and the top-level dump of TaskBasedRadiationHydrodynamicsSimulation the item list written equals the item list read (kinds, widths, order, loop counts), regenerated from the source on every run and decided by the kernel; derived_same_expression — every member of DensitySubGrid/HydroDensitySubGrid that is not stored is recomputed on restart by the same expression of stored members; transient_fields_reset — the not-stored limiter array has its constructor value at every dump point for every history of gradient sweeps; continuation_identical_partial / chain_identical_partial — these facts give a bit-identical continuation for every deterministic step function, every stop point and every chain of stop/restart cycles. NOT proved: that the modelled state is everything a step reads. That clause is validated on every run: the real binary is stopped after EVERY step and restarted (also in chains and through the stop file) for generated configurations (dyadic/non-dyadic cell sizes, layouts, boundaries, mask, turbulence, gravity) and compared bit for bit with the uninterrupted run at every step; real components are cycled write->read->write with poisoned memory; bytes written by the real code are decoded by the Lean reader.",
+    text="Partial proof + replayable experiments. PROVED in Lean 4 (no sorry, standard axioms): codec_roundtrip — for EVERY restart schema (nested data-dependent loops, conditionals, factory tags) and every value, the reader (loop counts evaluated from what it has read, bool `> 0`, string through char*, map insertion) returns exactly what the writer wrote and consumes exactly its bytes, hence write->read->write is byte-identical; schemas_match — for every restartable class, factory and the top-level dump of TaskBasedRadiationHydrodynamicsSimulation the item list written equals the item list read (kinds, widths, order, loop counts), regenerated from the source on every run and decided by the kernel; derived_same_expression — every member of DensitySubGrid/HydroDensitySubGrid that is not stored is recomputed on restart by the same expression of stored members; transient_fields_reset — the not-stored limiter array has its constructor value at every dump point for every history of gradient sweeps; continuation_identical_partial / chain_identical_partial — these facts give a bit-identical continuation for every deterministic step function, every stop point and every chain of stop/restart cycles. all_members_classified (generated, decide) — EVERY data member of every restartable class (from the class definitions) and every variable of do_simulation that lives across steps is stored, stored through an expression, derived, transient, rebuilt from the stored parameter file, or excluded by the property statement (an unclassified member fails the build and is named); restore_dump_claimed / continuation_identical_members_partial — over the state (valuation of all members) the restart path rebuilds every claimed member and the continuation agrees on them if excluded members do not influence the others; continuation_identical_hydro — for C04/C10's statement-by-statement model of the hydro step (any flux, limiter, layout, time-step sequence) stop + restart after any step gives the same grid states, with no abstract-step hypothesis. NOT proved for the real code: that a step reads nothing but the listed members and is independent of the excluded ones. That clause is validated on every run: the real binary is stopped after EVERY step and restarted (also in chains and through the stop file) for generated configurations (dyadic/non-dyadic cell sizes, layouts, boundaries, mask, turbulence, gravity) and compared bit for bit with the uninterrupted run at every step; real components are cycled write->read->write with poisoned memory; bytes written by the real code are decoded by the Lean reader.",
     note="Trusted: Lean kernel + 3 axioms; translator tools/gen_c09_schemas.py (textual; fails closed; validated each run against bytes and size logs produced by the real code); digest hook (guard CMACIONIZE_VERIF); FNV-1a digests (a collision could hide a difference); one thread, pure hydro; old DensityGrid classes, StatisticsLogger, LiveOutputManager only schema-checked, not driven by the component harness.",
     technique="Lean 4 proof (induction over schemas; generated tables decided by the kernel) + translator + differential decode of real bytes + exhaustive stop/restart experiments over all stop points with per-step state digests")
